@@ -49,6 +49,35 @@ from proof_generation.proved import Proved
 from proof_generation.serializing_interpreter import SerializingInterpreter
 from proof_generation.stateful_interpreter import StatefulInterpreter
 
+import signal
+
+
+class CaseTimeout(BaseException):
+    pass
+
+
+def _alarm(signum, frame):
+    raise CaseTimeout()
+
+
+signal.signal(signal.SIGALRM, _alarm)
+
+
+class time_limit:
+    """the toolkit's notation-aware == is exponential on nested notation; cases that exceed the budget
+    are skipped (and counted), never judged"""
+
+    def __init__(self, s):
+        self.s = s
+
+    def __enter__(self):
+        signal.setitimer(signal.ITIMER_REAL, self.s)
+
+    def __exit__(self, *a):
+        signal.setitimer(signal.ITIMER_REAL, 0)
+        return False
+
+
 NOTATIONS = {'bot': bot, 'neg': neg, 'top': top, 'and': _and, 'or': _or, 'equiv': equiv}
 
 
@@ -644,7 +673,7 @@ class Gen:
             return self.atom(style)
         c = r.random()
         if style == 'notation' and c < 0.45:
-            n = r.choice(['bot', 'neg', 'neg', 'top', 'and', 'or', 'equiv'])
+            n = r.choice(['bot', 'neg', 'neg', 'top', 'and', 'or', 'equiv'] if depth <= 1 else ['bot', 'neg', 'neg', 'top', 'and', 'or'])
             ar = NOTATIONS[n].arity
             return ['not', n] + [self.pat(depth - 1, style) for _ in range(ar)]
         if c < 0.6:
@@ -712,8 +741,9 @@ def gen_thunk_cases(seedstr, n):
 
         def try_add(spec, depth, pool=pool, host=host):
             try:
-                th = host.build(spec)
-            except Exception:  # noqa: BLE001
+                with time_limit(1.0):
+                    th = host.build(spec)
+            except (Exception, CaseTimeout):  # noqa: BLE001
                 return None
             pool.append((spec, depth, th))
             return th
@@ -986,7 +1016,11 @@ def main():
         elif cmd == 'gen_thunks':
             ans = []
             for c in gen_thunk_cases(req['seed'], req['n']):
-                r = run_case(c)
+                try:
+                    with time_limit(float(req.get('budget', 6.0))):
+                        r = run_case(c)
+                except CaseTimeout:
+                    r = {'built': False, 'timeout': True}
                 r['case'] = c
                 ans.append(r)
         elif cmd == 'module':
